@@ -214,6 +214,88 @@ def shared_state_walk(kind_i: int):
     check(not shared, lambda: f"two games share {len(shared)} mutable object(s), e.g. {shared[:4]}")
 
 
+SCHEDULED = [
+    "/repo/src/primaite/config/_package_data/mini_scenario_with_simulation_variation",
+    "/repo/src/primaite/config/_package_data/scenario_with_placeholders",
+    "/repo/tests/assets/configs/scenario_with_placeholders",
+]
+
+
+def scheduled_isolation(which: int, n_resets: int, step_each: bool):
+    """Episode-scheduled scenario directories: every episode of a long-lived environment (including the episodes
+    after the schedule has wrapped around, several times) is the simulation a brand-new scheduler + loader builds for
+    that episode index; no reset raises."""
+    from primaite.game.game import PrimaiteGame
+    from primaite.session.environment import PrimaiteGymEnv
+    from primaite.session.episode_schedule import build_scheduler
+
+    assume(all_of(rng(which, 0, len(SCHEDULED)), rng(n_resets, 1, 11)))
+    n = pick_int(n_resets, 1, 11)
+    w = pick_int(which, 0, len(SCHEDULED))
+    tmpdir = None
+    if w < len(SCHEDULED):
+        path = SCHEDULED[w]
+    else:
+        # a generated episode-scheduled directory whose base scenario contains a router, ACL rules and routes
+        with concrete():
+            import tempfile
+
+            import yaml
+
+            tmpdir = tempfile.mkdtemp(prefix="verif_sched_")
+            cfg = mini_scenario("routed")
+            with open(tmpdir + "/base.yaml", "w") as fh:
+                yaml.safe_dump(cfg, fh)
+            for v in ("v0.yaml", "v1.yaml"):
+                with open(tmpdir + "/" + v, "w") as fh:
+                    fh.write("# variant " + v + "\n")
+            with open(tmpdir + "/schedule.yaml", "w") as fh:
+                yaml.safe_dump({"base_scenario": "base.yaml", "schedule": {0: ["v0.yaml"], 1: ["v1.yaml"]}}, fh)
+        path = tmpdir
+    try:
+        _scheduled_body(path, n, step_each)
+    finally:
+        if tmpdir is not None:
+            import shutil
+
+            shutil.rmtree(tmpdir, ignore_errors=True)
+
+
+def _scheduled_body(path, n, step_each):
+    from primaite.game.game import PrimaiteGame
+    from primaite.session.environment import PrimaiteGymEnv
+    from primaite.session.episode_schedule import build_scheduler
+
+    with concrete():
+        quiet()
+        try:
+            env = PrimaiteGymEnv(env_config=path)
+        except Exception as e:
+            fail(f"constructing the environment for {path} raised {type(e).__name__}: {str(e)[:200]}")
+        for k in range(1, n + 1):
+            try:
+                env.reset(seed=5)
+                if step_each:
+                    env.step(0)
+            except Exception as e:
+                fail(f"{path.split('/')[-1]}: reset/step of episode {k} raised {type(e).__name__}: {str(e)[:200]}")
+        try:
+            env.reset(seed=5)
+        except Exception as e:
+            fail(f"{path.split('/')[-1]}: reset into episode {n + 1} raised {type(e).__name__}: {str(e)[:200]}")
+        k = n + 1
+        fresh = PrimaiteGame.from_config(build_scheduler(path)(k))
+        fresh.setup_for_episode(episode=k)
+        s_used = normalise(env.game.simulation.describe_state())
+        s_fresh = normalise(fresh.simulation.describe_state())
+        d = _first_diff(s_used, s_fresh)
+        agents_used = {n_: (type(a).__name__, len(a.action_manager.action_map)) for n_, a in env.game.agents.items()}
+        agents_fresh = {n_: (type(a).__name__, len(a.action_manager.action_map)) for n_, a in fresh.agents.items()}
+    cover("scheduled")
+    check(not d, lambda: f"{path.split('/')[-1]}: episode {k} of a long-lived environment differs from the simulation a new loader builds for that episode: {d}")
+    check(agents_used == agents_fresh, lambda: f"{path.split('/')[-1]}: agents of episode {k} differ from a fresh build")
+
+
 HARNESSES = {
     "reset_isolation": {
         "fn": reset_isolation,
@@ -229,6 +311,13 @@ HARNESSES = {
         "thorough": [{"fixed": {"a0": a, "kind": kd}, "timeout": 1500} for a in (0, 19, 41) for kd in ("switched", "routed")],
         "cover": ["compared"],
         "bounds": "B differs in NMNE capture and NMNE threshold; 3 interleaving positions; A's actions fixed (quick) / a1 over the whole map (thorough)",
+    },
+    "scheduled_isolation": {
+        "fn": scheduled_isolation,
+        "quick": [{"fixed": {"which": w}, "timeout": 280} for w in range(len(SCHEDULED) + 1)],
+        "thorough": [{"fixed": {"which": w}, "timeout": 900} for w in range(len(SCHEDULED) + 1)],
+        "cover": ["scheduled"],
+        "bounds": "the shipped episode-scheduled scenario directories (2 and 4 schedule entries) and a generated one with a router (2 entries), 1..11 consecutive resets (the schedule wraps around up to 5 times), with or without a step in each episode",
     },
     "shared_state_walk": {
         "fn": shared_state_walk,
